@@ -429,8 +429,33 @@ def inprogress_collision(defs, idents):
     return hit[0]
 
 
+def run_equal_collisions(ctx):
+    """definitions whose names collide and some of which are structurally equal copies: every JSON key still binds to a field
+    of ITS definition's type (a re-used declaration must be the one that is equal, not merely same-named)"""
+    from vlib.valuecheck import build_cases, evaluate
+    from vlib.kitchen import run_cases
+    shapes = {"S": {"type": "object", "properties": {"v": {"type": "string", "minLength": 1}}, "required": ["v"]},
+              "I": {"type": "object", "properties": {"v": {"type": "integer", "minimum": 0}}, "required": ["v"]},
+              "B": {"type": "object", "properties": {"v": {"type": "boolean"}, "w": {"type": "string"}}, "required": ["v"]}}
+    schemas = []
+    for names in (["MyThing", "myThing", "my_thing"], ["a_b", "aB", "AB", "a-b"], ["T1", "t1", "T_1"]):
+        for pat in itertools.product("SIB", repeat=len(names)):
+            if len(set(pat)) == len(pat) or len(set(pat)) == 1:
+                continue                      # at least two equal and at least two different definitions
+            defs = {n: json.loads(json.dumps(shapes[p])) for n, p in zip(names, pat)}
+            root = {"type": "object", "$defs": defs, "properties": {"p%d" % i: {"$ref": "#/$defs/" + n} for i, n in enumerate(names)}}
+            schemas.append(root)
+    if ctx.tier == "quick":
+        schemas = schemas[::2]
+    cases = build_cases(ctx, len(schemas), None, {"valid", "type", "bound", "string", "required"}, "c14e", extra_schemas=schemas, docs_per=2, max_docs=60,
+                        fam="equal-collisions")
+    run_cases(ctx, cases, "c14e")
+    evaluate(ctx, cases, {"valid", "type", "bound", "string", "required"}, {"valid": "valid"}, "colliding definitions with equal copies")
+
+
 def run(ctx):
     ctx.proof_step(PROPS_FILE)
+    run_equal_collisions(ctx)
     run_direct(ctx)
     run_files(ctx)
     run_siblings(ctx, [[], ["ID", "URL"], ["HtMl"]])
